@@ -2,7 +2,7 @@
 """BOUNDED stand-in (not a proof) for the part of C19 that is not under contract (Canvas::plane, recognize_horizontal_table,
 builder::build): decision tables are DRAWN here as Unicode box-drawing text - rules as rows and rules as columns, 1..3 inputs,
 1..2 outputs, 0..2 annotation columns, 1..3 rules, every hit policy marker, with and without information item name, with and
-without allowed input / output values (rules as rows), cell texts of varying width - and the real recognizer
+without allowed input / output values (rules as rows), an information item name box narrower than and exactly as wide as the table, cell texts of varying width, rule rows one to three text lines high - and the real recognizer
 (dmntk_recognizer::build through the replay driver) must give back the same hit policy, aggregator, orientation, input
 expressions, allowed values, output label / component names, annotation names and rule entries in the same order (white space
 around cell texts aside).
@@ -38,7 +38,7 @@ def horizontal(t):
         vals = [''] + t['input_values'] + t['output_values'] + [''] * na
     rows = [[str(i + 1)] + r[0] + r[1] + r[2] for i, r in enumerate(t['rules'])]
     ncol = len(heads)
-    width = [max(len(x[c]) for x in [heads] + ([vals] if vals else []) + rows) + 2 + (c % 3) for c in range(ncol)]
+    width = [max(max(len(l) for l in x[c].split('\n')) for x in [heads] + ([vals] if vals else []) + rows) + 2 + (c % 3) for c in range(ncol)]
     dbl = {ni}              # double line AFTER column index (0-based): after the last input
     if na:
         dbl.add(ni + no)
@@ -53,12 +53,17 @@ def horizontal(t):
                 s += dmid if c in dbl else mid
         return s
 
-    def content(cells, k):
+    def content1(cells, k):
         s = '│'
         for c in range(ncol):
             s += pad(cells[c], width[c], k + c)
             s += '║' if (c in dbl and c < ncol - 1) else '│'
         return s
+
+    def content(cells, k):
+        # a cell text may have several lines: the row is as many text lines high as its tallest cell
+        h = max(len(x.split('\n')) for x in cells)
+        return '\n'.join(content1([(x.split('\n') + [''] * h)[j] for x in cells], k) for j in range(h))
     out = []
     top = line('┌', '─', '┬', '╥', '┐')
     if t['name']:
@@ -67,9 +72,16 @@ def horizontal(t):
         # the box must end on a plain horizontal line of the table's top border
         while boxw + 1 < len(top) and top[boxw + 1] != '─':
             boxw += 1
-        out.append('┌' + '─' * boxw + '┐')
-        out.append('│' + pad(t['name'], boxw, 1) + '│')
-        top = '├' + top[1:boxw + 1] + '┴' + top[boxw + 2:]
+        if t.get('name_full'):
+            # the box of the information item name is exactly as wide as the table
+            boxw = len(top) - 2
+            out.append('┌' + '─' * boxw + '┐')
+            out.append('│' + pad(t['name'], boxw, 1) + '│')
+            top = '├' + top[1:-1] + '┤'
+        else:
+            out.append('┌' + '─' * boxw + '┐')
+            out.append('│' + pad(t['name'], boxw, 1) + '│')
+            top = '├' + top[1:boxw + 1] + '┴' + top[boxw + 2:]
     out.append(top)
     out.append(content(heads, 0))
     if vals:
@@ -81,7 +93,7 @@ def horizontal(t):
     for i, r in enumerate(rows):
         out.append(content(r, i))
         out.append(line('├', '─', '┼', '╫', '┤') if i < len(rows) - 1 else line('└', '─', '┴', '╨', '┘'))
-    return '\n'.join('  ' + l for l in out) + '\n'
+    return '\n'.join('  ' + l for chunk in out for l in chunk.split('\n')) + '\n'
 
 
 def vertical(t):
@@ -146,6 +158,17 @@ def tables():
                     res.append(('H', t))
                     if not values and not name:
                         res.append(('V', t))
+    # an information item name box exactly as wide as the table; rule rows two and three text lines high (multi-line cells)
+    base = [r for (kd, r) in res if kd == 'H'][:40]
+    import copy
+    for i, t0 in enumerate(base):
+        if t0['name']:
+            t1 = copy.deepcopy(t0)
+            t1['name_full'] = True
+            res.append(('H', t1))
+        t2 = copy.deepcopy(t0)
+        t2['rules'] = [([e + ('\nor more' if j == 0 else '') for j, e in enumerate(r[0])], [e + ('\nline two\nline three' if (j == 0 and i % 3 == 0) else '') for j, e in enumerate(r[1])], r[2]) for r in t2['rules']]
+        res.append(('H', t2))
     # score tables: integer output entries (the cells after the output double line of the last rule read like rule numbers)
     for (marker, outs) in (('C+', ['5', '10', '20']), ('C+', ['1', '2', '3']), ('F', ['3', '2']), ('U', ['2'])):
         for na in (0, 1):
